@@ -47,6 +47,22 @@ CLAIMED = {
    'TLC trace validation of recorded executions of the real endpoints against RSocket.tla (+ design-level TLC model checking of the same monitors)',
    'At every quiescence snapshot the real stream table and reassembly cache of both endpoints are compared with the set of interactions the specification still considers live (normally empty), over every ending the families produce.',
    CONN_NOTE, 'DESIGN 6/C10', 'conn'),
+ 'C03': ('model_checking',
+         'TLC exhaustive check of Fragmenter.tla (all legal plans) + every plan fed to the real reassembly cache + observed plans of the real fragmenter validated by TLC',
+         'Fragmenter.tla is a relational specification of legal fragmentations; TLC checks that every legal plan of every frame within the constants reassembles exactly. '
+         'Spec to code: all 3.9k legal plans (any conforming sender) are fed through the real codec into the real FrameFragmentCache. Code to spec: the real fragmenter is run '
+         'over an exhaustive window of metadata/data lengths at size 64 and boundary bands at larger sizes for all five frame types and both framings, each fragment is decoded '
+         'from its wire bytes and the plan is validated by TLC against the C03 clauses (size, type, follows, complete, metadata before data, single if fits, exact reassembly).',
+         'Trusted: TLC, the independent wire decoder, the replayers. Payload bytes are generated content (never inspected by the code under test). Exhaustive within the stated windows only.',
+         'DESIGN 6/C03', 'frag'),
+ 'C04': ('model_checking',
+         'TLC exhaustive check of Parser.tla + replay of every read transition on the real FrameParser / TransportTCP',
+         'Parser.tla models the decoder loop at the real byte scale; TLC checks for twelve streams (valid, zero-length, shorter-than-header and unknown-type frames) and every chunking '
+         'that exactly the frames wholly received have been emitted, in order. Every transition of the complete graph is replayed on the real FrameParser reached by one read, byte by byte '
+         'and by a random path, the streams also go through TransportTCP over a real StreamReader with read sizes 1,2,3,7,1024 and through the message path (including the empty message); '
+         'plus all 2^(n-1) chunkings of short streams and random chunkings of long random sequences.',
+         'Trusted: TLC, the independent encoder/decoder used to build and describe frames. Frame contents come from a fixed table per body length.',
+         'DESIGN 6/C04', 'parser'),
 }
 
 NOT_YET = 'machinery for this property is still being built in this round (see DESIGN.md section 11); not claimed until its check exists'
@@ -81,6 +97,10 @@ def main():
         'engines': [
             {'name': 'ids', 'path': 'spec/StreamIds.tla + vf/props/c13.py', 'serves_properties': ['C13'],
              'kind_free_text': 'TLA+ component spec, TLC exhaustive + full state-graph replay on the real object'},
+            {'name': 'frag', 'path': 'spec/Fragmenter.tla + spec/RSocket.tla (OnTx clauses) + vf/props/c03.py', 'serves_properties': ['C03'],
+             'kind_free_text': 'relational TLA+ spec of legal fragment plans; plans replayed into the real cache; real plans validated by TLC'},
+            {'name': 'parser', 'path': 'spec/Parser.tla + vf/props/c04.py', 'serves_properties': ['C04'],
+             'kind_free_text': 'TLA+ spec of the framing decoder at byte scale; full state-graph replay on the real FrameParser'},
             {'name': 'conn', 'path': 'spec/RSocket.tla + spec/RSocketTrace.tla + vf/harness + vf/props/conn.py',
              'serves_properties': [p for p in PROPS if p in CLAIMED and CLAIMED[p][5] == 'conn'],
              'kind_free_text': 'connection-level TLA+ monitors; real endpoints driven under a virtual-time loop over a simulated link; recorded traces validated by TLC in batches'},
